@@ -1,8 +1,11 @@
+import os
 import types
 
 
 def load_module(module_path: str):
     # a module object of its own, whatever the file is called (spec_from_file_location knows files by their suffix only)
+    # the path may arrive as a pathlib.Path (or bytes) like every other path of the library; a module is named by a text
+    module_path = os.fsdecode(module_path)
     module = types.ModuleType(module_path)
     module.__file__ = module_path
     # The file is compiled afresh every time. The import system would reuse a bytecode file written for an earlier version of it
